@@ -47,6 +47,13 @@ def v_texts_match(out, ids):
     return list(out) == ["t%d" % g for g in ids]
 
 
+@_intrinsic("storage_files_left")
+def v_storage_files_left():
+    """number of files that exist in the storage directory"""
+    import os
+    return len(os.listdir(REPLAY["storage_dir"]))
+
+
 @_intrinsic("role")
 def v_role(name):
     """start of a process body (replays with real processes learn who they are); no effect in the model"""
@@ -257,6 +264,8 @@ def dispatch(ex, ts, pst, th, name, args, kwargs):
     if name == "role":
         st.append(None)
         return None
+    if name == "storage_files_left":
+        return ex.storage_file_op(ts, pst, th, "count_existing", I(0), [], {})
     if name == "texts_match":
         out, ids = args
         st.append(ex.seq_eq(out, ids) if isinstance(out, SList) and isinstance(ids, SList) else False)
